@@ -3,13 +3,15 @@
 
    Heap values: arrays, mappings and function pointers; each may hold one other value (array: element 0,
    mapping: the value under key "k", function pointer: its bound argument).  Holders of references:
-   global variables (slots) of scenario objects, containers, function pointers and pending call_outs.
+   global variables (slots) of scenario objects, containers, function pointers, pending call_outs and the pending
+   input_to of the connected user (its callback's bound argument / its carry-over argument).
    A value lives exactly as long as its reference count is positive; when the count reaches zero it is
    released at once and drops the reference it holds.  (Values that hold each other in a cycle therefore
    never go away - see Garbage.)
 
    The driver's statistics are functions of the heap:
      arrays   = #arrays + #function pointers (their bound-argument array) + #pending call_outs (their argument array)
+                + 1 for a pending input_to (bound-argument array of its function pointer, or its carry-over array)
      mappings = #mappings,  mapping nodes = #mappings (one key each)                                         *)
 EXTENDS Integers, Sequences, FiniteSets, TLC
 
@@ -21,11 +23,14 @@ VARIABLES kind,    \* Ids -> "none" (never allocated / released) | "arr" | "map"
           rc,      \* Ids -> reference count
           slot,    \* Objs \X Slots -> 0 | Ids
           couts,   \* Objs -> sequence of (0 | Ids): arguments of the pending call_outs, oldest first
-          alive    \* Objs -> BOOLEAN
-vars == <<kind, child, rc, slot, couts, alive>>
+          alive,   \* Objs -> BOOLEAN
+          inp,     \* <<>> (nothing pending) or <<owner, value>>: the user's pending input_to, its callback in object owner holding value (0 | Ids)
+          conn     \* the user is connected
+vars == <<kind, child, rc, slot, couts, alive, inp, conn>>
 
 Init == /\ kind = [v \in Ids |-> "none"] /\ child = [v \in Ids |-> 0] /\ rc = [v \in Ids |-> 0]
         /\ slot = [x \in Objs \X Slots |-> 0] /\ couts = [o \in Objs |-> <<>>] /\ alive = [o \in Objs |-> TRUE]
+        /\ inp = <<>> /\ conn = TRUE
 
 Fresh == IF \E v \in Ids : kind[v] = "none" /\ rc[v] = 0 THEN CHOOSE v \in Ids : kind[v] = "none" /\ \A w \in Ids : (kind[w] = "none") => v <= w ELSE 0
 
@@ -47,21 +52,21 @@ NewVal(o, i, k) ==          \* g[i] = ({ 0, 0 })  /  ([ "k" : 0 ])
   /\ LET v == Fresh
          h1 == [H EXCEPT !.kind[v] = k, !.child[v] = 0, !.rc[v] = 0]
      IN SetH(Assign(h1, o, i, v)) /\ slot' = [slot EXCEPT ![<<o, i>>] = v]
-  /\ UNCHANGED <<couts, alive>>
+  /\ UNCHANGED <<couts, alive, inp, conn>>
 Copy(o, i, p, j) ==         \* p.g[j] = o.g[i]
   /\ alive[o] /\ alive[p]
   /\ SetH(Assign(H, p, j, slot[<<o, i>>])) /\ slot' = [slot EXCEPT ![<<p, j>>] = slot[<<o, i>>]]
-  /\ UNCHANGED <<couts, alive>>
+  /\ UNCHANGED <<couts, alive, inp, conn>>
 Clear(o, i) ==              \* g[i] = 0
   /\ alive[o] /\ SetH(Dec(H, slot[<<o, i>>])) /\ slot' = [slot EXCEPT ![<<o, i>>] = 0]
-  /\ UNCHANGED <<couts, alive>>
+  /\ UNCHANGED <<couts, alive, inp, conn>>
 Put(o, i, p, j) ==          \* p.g[j][0] = o.g[i]   /   p.g[j]["k"] = o.g[i]
   /\ alive[o] /\ alive[p] /\ slot[<<p, j>>] # 0 /\ kind[slot[<<p, j>>]] \in {"arr", "map"}
   /\ LET c == slot[<<p, j>>]  v == slot[<<o, i>>]
          h1 == Inc(H, v)
          h2 == [h1 EXCEPT !.child[c] = v]
      IN SetH(Dec(h2, child[c]))
-  /\ UNCHANGED <<slot, couts, alive>>
+  /\ UNCHANGED <<slot, couts, alive, inp, conn>>
 PutR(o, i, p, j) ==         \* p.g[j][0..0] = ({ o.g[i] })  (range assignment: same effect as Put, on arrays only)
   /\ slot[<<p, j>>] # 0 /\ kind[slot[<<p, j>>]] = "arr" /\ Put(o, i, p, j)
 NewFp(o, i, j) ==           \* g[j] = (: cb, g[i] :)
@@ -69,15 +74,27 @@ NewFp(o, i, j) ==           \* g[j] = (: cb, g[i] :)
   /\ LET v == Fresh  a == slot[<<o, i>>]
          h1 == Inc([H EXCEPT !.kind[v] = "fp", !.child[v] = a, !.rc[v] = 0], a)
      IN SetH(Assign(h1, o, j, v)) /\ slot' = [slot EXCEPT ![<<o, j>>] = v]
-  /\ UNCHANGED <<couts, alive>>
+  /\ UNCHANGED <<couts, alive, inp, conn>>
 CallOut(o, i) ==            \* call_out("cb", far future, g[i])
   /\ alive[o] /\ Len(couts[o]) < 2
   /\ SetH(Inc(H, slot[<<o, i>>])) /\ couts' = [couts EXCEPT ![o] = Append(@, slot[<<o, i>>])]
-  /\ UNCHANGED <<slot, alive>>
-RmCallOut(o, k) ==          \* remove_call_out("cb"): one of the pending ones (which one is the call_out queue's business, see C10)
+  /\ UNCHANGED <<slot, alive, inp, conn>>
+RmCallOut(o, k) ==          \* remove_call_out("cb") or remove_call_out(handle): one of the pending ones (which one is the call_out queue's business, see C10)
   /\ alive[o] /\ k \in 1..Len(couts[o])
   /\ SetH(Dec(H, couts[o][k])) /\ couts' = [couts EXCEPT ![o] = SubSeq(@, 1, k - 1) \o SubSeq(@, k + 1, Len(@))]
-  /\ UNCHANGED <<slot, alive>>
+  /\ UNCHANGED <<slot, alive, inp, conn>>
+\* the connected user's input_to: input_to("cb", 0, g[i]) (carry-over argument) or input_to((: cb, g[i] :)) (bound argument).
+\* Only the first of several calls takes effect.
+InputTo(o, i) ==
+  /\ alive[o] /\ conn
+  /\ IF inp = <<>> THEN SetH(Inc(H, slot[<<o, i>>])) /\ inp' = <<o, slot[<<o, i>>]>>
+     ELSE UNCHANGED <<kind, child, rc, inp>>
+  /\ UNCHANGED <<slot, couts, alive, conn>>
+\* the user's next line goes to the callback, which returns, raises an error, or cannot run because its object is gone:
+\* in every case the pending input_to and what it held are released
+InputLine == /\ conn /\ inp # <<>> /\ SetH(Dec(H, inp[2])) /\ inp' = <<>> /\ UNCHANGED <<slot, couts, alive, conn>>
+\* the user disconnects: a pending input_to is dropped
+Drop == /\ conn /\ conn' = FALSE /\ inp' = <<>> /\ SetH(IF inp = <<>> THEN H ELSE Dec(H, inp[2])) /\ UNCHANGED <<slot, couts, alive>>
 \* an evaluation that pushes references to g[i] (arguments, a temporary array, an efun callback) and then fails:
 \* caught or not, every temporary is dropped again
 Err(o, i) == alive[o] /\ UNCHANGED vars
@@ -88,22 +105,23 @@ Dest(o) ==                  \* destruct(o) + the deferred clean-up: its variable
   /\ alive[o]               \* stay queued (they will not run) and keep their arguments until their time has come
   /\ SetH(DecAll(H, SlotSeq(o)))
   /\ slot' = [x \in Objs \X Slots |-> IF x[1] = o THEN 0 ELSE slot[x]]
-  /\ alive' = [alive EXCEPT ![o] = FALSE] /\ UNCHANGED couts
+  /\ alive' = [alive EXCEPT ![o] = FALSE] /\ UNCHANGED <<couts, inp, conn>>
 \* time passes beyond every pending call_out: each one runs (a no-op callback) or is dropped, its arguments are released
 RECURSIVE AllCouts(_)
 AllCouts(O) == IF O = {} THEN <<>> ELSE LET o == CHOOSE o \in O : TRUE IN couts[o] \o AllCouts(O \ {o})
-Expire == /\ SetH(DecAll(H, AllCouts(Objs))) /\ couts' = [o \in Objs |-> <<>>] /\ UNCHANGED <<slot, alive>>
+Expire == /\ SetH(DecAll(H, AllCouts(Objs))) /\ couts' = [o \in Objs |-> <<>>] /\ UNCHANGED <<slot, alive, inp, conn>>
 
 \* ---- what the driver's counters must show
 NArr  == Cardinality({v \in Ids : kind[v] = "arr"})
 NMap  == Cardinality({v \in Ids : kind[v] = "map"})
 NFp   == Cardinality({v \in Ids : kind[v] = "fp"})
 NCout == LET RECURSIVE S(_) S(O) == IF O = {} THEN 0 ELSE LET o == CHOOSE o \in O : TRUE IN Len(couts[o]) + S(O \ {o}) IN S(Objs)
-StatArrays == NArr + NFp + NCout
+StatArrays == NArr + NFp + NCout + (IF inp = <<>> THEN 0 ELSE 1)
 StatMaps   == NMap
 
 \* ---- consistency of the model itself
 Holders(v) == Cardinality({x \in Objs \X Slots : slot[x] = v}) + Cardinality({w \in Ids : kind[w] # "none" /\ child[w] = v})
+              + (IF inp # <<>> /\ inp[2] = v THEN 1 ELSE 0)
               + LET RECURSIVE C(_) C(O) == IF O = {} THEN 0 ELSE LET o == CHOOSE o \in O : TRUE IN Cardinality({k \in 1..Len(couts[o]) : couts[o][k] = v}) + C(O \ {o}) IN C(Objs)
 CountsExact == \A v \in Ids : rc[v] = Holders(v) /\ (kind[v] = "none" <=> rc[v] = 0)
 NothingDangling == /\ \A x \in Objs \X Slots : slot[x] # 0 => kind[slot[x]] # "none"
@@ -112,5 +130,6 @@ NothingDangling == /\ \A x \in Objs \X Slots : slot[x] # 0 => kind[slot[x]] # "n
 RECURSIVE Reach(_, _)
 Reach(S, n) == IF n = 0 THEN S ELSE Reach(S \cup ({child[v] : v \in S} \ {0}), n - 1)
 Roots == {slot[x] : x \in Objs \X Slots} \cup UNION {{couts[o][k] : k \in 1..Len(couts[o])} : o \in Objs}
+         \cup (IF inp = <<>> THEN {} ELSE {inp[2]})
 Garbage == {v \in Ids : kind[v] # "none"} \ Reach(Roots \ {0}, MaxV)
 =============================================================================
